@@ -249,6 +249,11 @@ class Check:
         self.assumptions = []
         self.replay_dir = WORK / "replays"
         self.replay_dir.mkdir(parents=True, exist_ok=True)
+        for old in self.replay_dir.glob(f"{prop}-{tier}-*.json"):
+            try:
+                old.unlink()
+            except OSError:
+                pass
 
     def violation(self, what, replay_obj):
         n = len(self.violations)
